@@ -172,10 +172,11 @@ def validate_traces(spec, consts, shards, workdir, jobs=8, xmx="3g", timeout=300
     return res
 
 
-def model_check(spec, cfg_text, workdir, workers=8, xmx="6g", timeout=1800, extra=None):
-    """Exhaustive design check of an L2 module.  Returns dict(ok, states, transitions, out)."""
+def model_check(spec, cfg_text, workdir, workers=8, xmx="6g", timeout=1800, extra=None, coverage=False):
+    """Exhaustive design check of an L2 module.  Returns dict(ok, states, transitions, out).
+    (-coverage makes TLC run out of memory on specifications with nested LET RECURSIVE operators, so it is opt-in.)"""
     rc, out = tlc(spec, cfg_text, workdir, workers=workers, xmx=xmx, timeout=timeout,
-                  extra=(extra or []) + ["-coverage", "1"])
+                  extra=(extra or []) + (["-coverage", "1"] if coverage else []))
     m = TLC_STATS.search(out)
     ok = rc == 0 and "No error has been found" in out
     return dict(ok=ok, rc=rc, states=int(m.group(2)) if m else 0,
